@@ -235,3 +235,37 @@ func VC03_saturate() {
 		vrt.Assert(sum == old+m && c.ptr.count.Load() == old+m, "persisted count adds exactly below the limit")
 	}
 }
+
+// VC03_two: the first Adds of two distinct counters race with each other and with the
+// opening of the file: afterwards both counters are on the file's list, both are persisted
+// and nothing is pending.
+func VC03_two() {
+	f := c3setup()
+	c := &Counter{name: "c", file: f}
+	d := &Counter{name: "d", file: f}
+	a1, a2 := c3amount(), c3amount()
+	vrt.Go(func() { c.Add(a1) })
+	vrt.Go(func() { d.Add(a2) })
+	vrt.Go(func() {
+		f.rotate1()
+		vrt.Assert(f.err == nil, "the file opens")
+	})
+	vrt.MaxPreempt = vrt.Param("preempt", 2)
+	vrt.RunThreads()
+	vrt.Assert(!vrt.Deadlock, "no increment waits forever")
+	for _, x := range []struct {
+		c *Counter
+		n int64
+	}{{c, a1}, {d, a2}} {
+		st := x.c.state.load()
+		vrt.Assert(c3persisted(x.c.name)+st.extra() == uint64(x.n), "each counter equals its increments")
+		vrt.Assert(st.extra() == 0, "with a counter file open nothing remains unpersisted (two counters)")
+		vrt.Assert(!st.locked() && st.readers() == 0, "the counter's lock word is released")
+	}
+	// both are on the file's list (so that later invalidations reach them)
+	n := 0
+	for x := f.counters.Load(); x != nil && x != &f.end && n < 8; x = x.next.Load() {
+		n++
+	}
+	vrt.Assert(n == 2, "every counter in use is on the file's list")
+}
